@@ -9,16 +9,20 @@ Ev == Traces[tid][l]
 \* The verdict on an event is computed ONCE (the tableau of a long history is expensive): StepOK is the enabling condition of
 \* the CliffordCircuit action the event names together with the comparison of the logged result; NewGates is its effect.
 StepOK == CASE Ev.op = "app" -> TRUE
+            [] Ev.op = "rnd" -> /\ Ev.k \in RandomNames(Ev.b) /\ Ev.ra = Ev.a /\ Ev.rb = Ev.b      \* one gate of the vocabulary, on the wires requested
+                                /\ Ev.count = (IF Ev.k = "I" THEN 0 ELSE 1)
             [] Ev.op = "qry" -> CanQuery /\ \E T \in {CurT} : Ev.n = NT(T) /\ Ev.r = ToR(T) /\ Ev.S = ToS(T)
             [] Ev.op = "apply" -> CanQuery /\ Ev.res = ToF2(ApplyResult(FromF2(Ev.p)))
             [] Ev.op = "export" -> Ev.gates = [i \in 1..Len(gates) |-> <<gates[i].k, gates[i].a, gates[i].b>>]
+            [] Ev.op = "noqry" -> ~CanQuery
             [] Ev.op = "numq" -> CanQuery /\ Ev.n = CurN
             [] OTHER -> FALSE
 Init == tid = 1 /\ l = 1 /\ CCInit /\ TLCSet(1, 0)
 Consume == /\ l <= Len(Traces[tid])
            /\ \E ok \in {StepOK} :
                 IF ok THEN /\ l' = l + 1 /\ tid' = tid
-                           /\ IF Ev.op = "app" THEN AppendGate([k |-> Ev.k, a |-> Ev.a, b |-> Ev.b]) ELSE UNCHANGED gates
+                           /\ IF Ev.op = "app" THEN AppendGate([k |-> Ev.k, a |-> Ev.a, b |-> Ev.b])
+                              ELSE IF Ev.op = "rnd" THEN RandomGate(Ev.k, Ev.a, Ev.b) ELSE UNCHANGED gates
                 ELSE /\ PrintT(<<"REJECT", tid, l, Ev.op>>)
                      /\ tid < Len(Traces) /\ tid' = tid + 1 /\ l' = 1 /\ gates' = <<>>
 Finish == /\ l = Len(Traces[tid]) + 1 /\ TLCSet(1, TLCGet(1) + 1)
